@@ -300,3 +300,79 @@ def named_sig_order(alg):
 def tok_of(alg, basis):
     return cfg_token([int(s) for s in alg.signature], None if basis else int(alg.start_index),
                      list(alg.canon2bin.keys()) if basis else None)
+
+
+# ---------------------------------------------------------------------------------------------------------------
+# operand forms, derived algebras, code-generation options: the same operators reached another way
+
+INFIX = {'gp': lambda a, b: a * b, 'op': lambda a, b: a ^ b, 'ip': lambda a, b: a | b, 'rp': lambda a, b: a & b,
+         'sw': lambda a, b: a >> b, 'proj': lambda a, b: a @ b, 'add': lambda a, b: a + b, 'sub': lambda a, b: a - b,
+         'div': lambda a, b: a / b}
+
+
+def forms_pass(ctx, ops):
+    """(1) infix operators with a callable / list / tuple operand on either side (kingdon maps the operator over
+    them; the reflected dunders are reached when the left operand is not a multivector), (2) algebras derived with
+    dataclasses.replace, (3) algebras with cse=False or another codegen symbol class: all against the method form
+    on plain operands / the independent reference over the algebra's own sign table."""
+    import dataclasses
+    from fractions import Fraction
+    from kingdon import MultiVector
+    rng = ctx.rng
+    R = OpRun(ctx)
+    infix_ops = [op for op in ops if op in INFIX]
+    for sig in ([1, 1, 1], [0, 1, 1, 1]):
+        alg = make_algebra(sig)
+        d = alg.d
+        for op in infix_ops:
+            for _ in range(3 if ctx.quick else 12):
+                kx, ky, kz = key_tuples(rng, d, 3, ['small', 'grades', 'subset'])
+                kx, ky, kz = (kx or [1])[:5], (ky or [2])[:5], (kz or [3])[:5]
+                mk = lambda ks_: MultiVector.fromkeysvalues(alg, tuple(ks_), [Fraction(rng.randint(1, 9)) for _ in ks_])
+                a, a2, b = mk(kx), mk(kz), mk(ky)
+                try:
+                    e1, e2 = mv_to_dict(BIN[op](a, b)), mv_to_dict(BIN[op](a2, b))
+                    f1, f2 = mv_to_dict(BIN[op](b, a)), mv_to_dict(BIN[op](b, a2))
+                except ZeroDivisionError:
+                    continue
+                forms = {
+                    'callable^mv': (lambda: [mv_to_dict(INFIX[op]((lambda: a), b))], [e1]),
+                    'list^mv': (lambda: [mv_to_dict(r) for r in INFIX[op]([a, a2], b)], [e1, e2]),
+                    'tuple^mv': (lambda: [mv_to_dict(r) for r in INFIX[op]((a, a2), b)], [e1, e2]),
+                    'mv^callable': (lambda: [mv_to_dict(INFIX[op](b, (lambda: a)))], [f1]),
+                    'mv^list': (lambda: [mv_to_dict(r) for r in INFIX[op](b, [a, a2])], [f1, f2]),
+                }
+                for nm, (thunk, exp) in forms.items():
+                    case = {'sig': sig, 'op': op, 'form': nm, 'kx': kx, 'kz': kz, 'ky': ky}
+                    ctx.case(case, tag='form:' + nm)
+                    try:
+                        got = thunk()
+                    except Exception as e:
+                        ctx.violation('operand-form-raises', case, str(exp)[:200], repr(e)[:200], key=f'{op}:form:{nm}:raises')
+                        continue
+                    if got != exp:
+                        ctx.violation('operand-form', case, str(exp)[:300], str(got)[:300], key=f'{op}:form:{nm}')
+    # derived algebras
+    parent = make_algebra([1, 1, 1])
+    BIN['gp'](tracer_mv(parent, [1, 2, 4], 0), tracer_mv(parent, [1, 4], 1000))      # the parent has generated something already
+    derived = [('replace:signature', dataclasses.replace(parent, signature=[1, 1, -1])),
+               ('replace:signature0', dataclasses.replace(parent, signature=[1, 0, 1])),
+               ('replace:graded', dataclasses.replace(parent, graded=False)),
+               ('replace:basis', dataclasses.replace(parent, basis=['e', 'e1', 'e2', 'e3', 'e12', 'e31', 'e23', 'e123'])),
+               ('cse=False', make_algebra([1, 1, 1], cse=False)), ('cse=False:d4', make_algebra([0, 1, 1, 1], cse=False)),
+               ('cse=False:custom', make_algebra([1, 1, 1], basis=['e', 'e1', 'e2', 'e3', 'e12', 'e31', 'e23', 'e123'], cse=False))]
+    for nm, alg in derived:
+        full = list(alg.canon2bin.values())
+        pats = [(full, full), ([1, 2, 4], [0, 1, 2]), ([4, 2], [4, 1]), ([3, 4, 5, 6][: len(full)], [1, 2, 4])]
+        if alg.d == 4:
+            pats += [([1, 2, 4, 8], [1, 2, 4, 8]), ([9, 6, 1], [8, 6])]
+        for kx, ky in pats:
+            for op in ops:
+                if op in BIN:
+                    zd = R.binary(alg, None, {'sig': [int(s) for s in alg.signature], 'route': nm}, op, kx, ky, model=False)
+        # results belong to the derived algebra
+        z = BIN['gp'](tracer_mv(alg, [1], 0), tracer_mv(alg, [1], 1000))
+        ctx.case(('owner', nm), tag='derived-owner')
+        if z.algebra is not alg:
+            ctx.violation('derived-algebra', {'route': nm}, 'the result belongs to the algebra of its operands', 'it belongs to another algebra object',
+                          key=f'derived:owner:{nm}')
